@@ -48,11 +48,11 @@ def display_clauses(prog, selfx, fo, ff, r, labels=True):
                 cl.append(('forward_%s' % v.ident, '(%s ==> %s_fmt_post(vx_x, %s, %s, %s))' % (bind1(prog, v, selfx), prog.inner.name, fo, ff, r)))
                 req.append(('fmt_req_%s' % v.ident, '(%s ==> %s_fmt_req(vx_x, %s))' % (bind1(prog, v, selfx), prog.inner.name, fo)))
             continue
-        name = oracle.canonical_name(prog, v)
-        if oracle.has_placeholder(name) and v.kind != 'unit':
+        names = oracle.canonical_names(prog, v)
+        if any(oracle.has_placeholder(n) for n in names) and v.kind != 'unit':
             continue
-        cl.append(('name_%s' % v.ident, '(%s is %s ==> str_fmt_post(%s@, %s, %s, %s))' % (selfx, v.ident, rs_str(name), fo, ff, r)))
-        req.append(('fmt_req_%s' % v.ident, '(%s is %s ==> DisplaySpec::fmt_req(%s, %s))' % (selfx, v.ident, rs_str(name), fo)))
+        cl.append(('name_%s' % v.ident, '(%s is %s ==> (%s))' % (selfx, v.ident, ' || '.join('str_fmt_post(%s@, %s, %s, %s)' % (rs_str(n), fo, ff, r) for n in names))))
+        req.append(('fmt_req_%s' % v.ident, '(%s is %s ==> %s)' % (selfx, v.ident, ' && '.join('DisplaySpec::fmt_req(%s, %s)' % (rs_str(n), fo) for n in names))))
     return req, cl
 
 def name_clauses(prog, selfx, r, derive):
@@ -69,8 +69,8 @@ def name_clauses(prog, selfx, r, derive):
             elif k == 'enum':
                 cl.append(('forward_%s' % v.ident, '(%s ==> %s == %s_name(vx_x))' % (bind1(prog, v, selfx), r, prog.inner.name)))
             continue
-        name = oracle.canonical_name(prog, v)
-        cl.append(('name_%s' % v.ident, '(%s is %s ==> %s == %s)' % (selfx, v.ident, r, rs_str(name))))
+        names = oracle.canonical_names(prog, v)
+        cl.append(('name_%s' % v.ident, '(%s is %s ==> (%s))' % (selfx, v.ident, ' || '.join('%s == %s' % (r, rs_str(n)) for n in names))))
     return cl
 
 def in_scope(prog):
@@ -107,7 +107,7 @@ def gen_one(prog, pid, plan, consts, pre, lem, is_inner=False):
         cases = []
         for v in prog.variants:
             if not v.disabled and not v.transparent:
-                cases.append(('x is %s' % v.ident, rs_str(oracle.canonical_name(prog, v))))
+                cases.append(('x is %s' % v.ident, rs_str(oracle.canonical_names(prog, v)[0])))
         pre.append('pub open spec fn %s_name%s(x: %s) -> &\'static str %s {\n    %s\n}' % (E, g_decl, tp, where, vspec.if_chain(cases, '""')))
     if 'AsRefStr' in d:
         c = Contract(ensures=name_clauses(prog, '(*self)', 'r', 'as_ref'), props=props)
@@ -139,8 +139,8 @@ def gen_one(prog, pid, plan, consts, pre, lem, is_inner=False):
         ens = [('one_entry_per_declared_variant', '%s_VariantNames_VARIANTS@.len() == %d' % (E, n))]
         for i, v in enumerate(prog.variants):
             if v in in_scope(prog) or True:
-                name = oracle.canonical_name(prog, v)
-                ens.append(('name_at_%d_%s' % (i, v.ident), '%s_VariantNames_VARIANTS@[%d] == %s' % (E, i, rs_str(name))))
+                names = oracle.canonical_names(prog, v)
+                ens.append(('name_at_%d_%s' % (i, v.ident), '(%s)' % ' || '.join('%s_VariantNames_VARIANTS@[%d] == %s' % (E, i, rs_str(n)) for n in names)))
         consts[(E, 'VariantNames', 'VARIANTS')] = Contract(ensures=ens, props=['C03', 'C08', 'C07'])
 
 def gen(prog, pid):
@@ -149,7 +149,7 @@ def gen(prog, pid):
         gen_one(prog.inner, pid, plan, consts, pre, lem, is_inner=True)
     gen_one(prog, pid, plan, consts, pre, lem)
     # reachability: the printers are callable on the first in-scope variant and give its NAME
-    sc = [v for v in in_scope(prog) if v.kind == 'unit' and not prog.generics_use]
+    sc = [v for v in in_scope(prog) if v.kind == 'unit' and not prog.generics_use and len(oracle.canonical_names(prog, v)) == 1]
     if sc:
         v = sc[0]
         name = rs_str(oracle.canonical_name(prog, v))
@@ -165,3 +165,118 @@ def gen(prog, pid):
         if 'Display' in prog.derives:
             lem.append('// @@FN vx_reach_display\nfn vx_reach_display(f: &mut core::fmt::Formatter<\'_>)\n    requires DisplaySpec::fmt_req(%s, old(f)),\n{\n    let x = %s::%s;\n    let ghost f0 = *f;\n    let r = x.fmt(f);\n    assert(str_fmt_post(%s@, &f0, f, r));\n}\n// @@END vx_reach_display' % (name, prog.name, v.ident, name))
     return '\n'.join(pre), plan, consts, '\n'.join(lem)
+
+# ---------------------------------------------------------------------------------------
+# Kani on the real derives: one harness per (variant, printer), payload symbolic.
+#   name_*  : printer output == NAME(V)                         (C03; decider for the deprecated ToString / AsStaticStr derives)
+#   rt_*    : E::from_str(print(v)) == Ok(V with defaulted payload)   (C02 - decided on the real print and parse code back to back)
+
+ANY = {'u8': 'kani::any::<u8>()', 'i32': 'kani::any::<i32>()', 'bool': 'kani::any::<bool>()', 'usize': 'kani::any::<usize>()',
+       'u16': 'kani::any::<u16>()', 'i64': 'kani::any::<i64>()', '()': '()', 'Tag': 'Tag(kani::any::<u8>())', 'T': 'kani::any::<u8>()',
+       "&'a str": '"payload"', "&'static str": '"payload"'}
+
+def any_value(prog, v):
+    path = '%s::%s' % (prog.name, v.ident)
+    if v.kind == 'unit':
+        return path
+    vals = [ANY.get(f.ty) for f in v.fields]
+    if any(x is None for x in vals):
+        return None
+    if v.kind == 'tuple':
+        return '%s(%s)' % (path, ', '.join(vals))
+    return '%s { %s }' % (path, ', '.join('%s: %s' % (f.name, x) for f, x in zip(v.fields, vals)))
+
+def printers_of(prog):
+    d = prog.derives
+    out = []
+    if 'Display' in d:
+        out.append(('display', 'v.to_string()', 'String'))
+    if 'ToString' in d:
+        out.append(('to_string', 'v.to_string()', 'String'))
+    if 'AsRefStr' in d:
+        out.append(('as_ref', 'v.as_ref().to_owned()', 'String'))
+    if 'AsStaticStr' in d:
+        out.append(('as_static', '{ use strum::AsStaticRef; let t: &\'static str = v.as_static(); t.to_owned() }', 'String'))
+    if 'IntoStaticStr' in d:
+        out.append(('into_ref', '{ let t: &\'static str = (&v).into(); t.to_owned() }', 'String'))
+        out.append(('into', '{ let t: &\'static str = v.into(); t.to_owned() }', 'String'))
+        if prog.const_into_str:
+            out.append(('into_str', 'v.into_str().to_owned()', 'String'))
+    return out
+
+def kani_scope(prog):
+    return [v for v in prog.variants if not v.disabled and not v.transparent and not v.default
+            and not oracle.has_placeholder(oracle.canonical_name(prog, v)) and any_value(prog, v) is not None]
+
+def kani_harness_list(prog, want_names=True, want_rt=False):
+    hs = []
+    for v in kani_scope(prog):
+        for pn, _, _ in printers_of(prog):
+            if want_names:
+                hs.append(('name_%s_%s' % (pn, v.ident), 'name:%s' % pn))
+            if want_rt and 'EnumString' in prog.derives and prog.prefix is None:
+                hs.append(('rt_%s_%s' % (pn, v.ident), 'roundtrip:%s' % pn))
+    if want_rt and 'EnumMessage' in prog.derives and 'EnumString' in prog.derives:
+        for v in prog.variants:
+            if any_value(prog, v) is not None and not v.default and not v.disabled:
+                hs.append(('rt_ser_%s' % v.ident, 'roundtrip:get_serializations'))
+    return hs
+
+def kani_module(prog, want_names=True, want_rt=False):
+    from . import spec_parse
+    E = prog.name
+    inst = vspec.rust_inst(prog)
+    out = []
+    maxlen = 1
+    for v in kani_scope(prog):
+        name = oracle.canonical_name(prog, v)
+        maxlen = max(maxlen, len(name.encode('utf-8')))
+        val = any_value(prog, v)
+        for pn, expr, _ in printers_of(prog):
+            if want_names:
+                out.append('''    #[kani::proof]
+    #[kani::unwind(%d)]
+    fn name_%s_%s() {
+        let v: En = %s;
+        let s: String = %s;
+        assert!(%s);
+    }''' % (len(name.encode('utf-8')) + 3, pn, v.ident, val, expr, ' || '.join('s.as_bytes() == %s.as_bytes()' % rs_str(n) for n in oracle.canonical_names(prog, v))))
+            if want_rt and 'EnumString' in prog.derives and prog.prefix is None:
+                out.append('''    #[kani::proof]
+    #[kani::unwind(%d)]
+    fn rt_%s_%s() {
+        let v: En = %s;
+        let s: String = %s;
+        let r = En::from_str(&s);
+        assert!(r == Ok(%s));
+    }''' % (len(name.encode('utf-8')) + 3, pn, v.ident, val, expr, spec_parse.rust_value(prog, v)))
+    if want_rt and 'EnumMessage' in prog.derives and 'EnumString' in prog.derives:
+        for v in prog.variants:
+            val = any_value(prog, v)
+            if val is None or v.default:
+                continue
+            sp = oracle.spellings(prog, v)
+            ml = max(len(x.encode('utf-8')) for x in sp)
+            # a disabled variant still lists its spellings, but they must not parse (C01); the property speaks of enabled ones
+            if v.disabled:
+                continue
+            out.append('''    #[kani::proof]
+    #[kani::unwind(%d)]
+    fn rt_ser_%s() {
+        let v: En = %s;
+        let ss = v.get_serializations();
+        let mut i = 0;
+        while i < ss.len() {
+            assert!(En::from_str(ss[i]) == Ok(%s));
+            i += 1;
+        }
+        assert!(ss.len() == %d);
+    }''' % (max(ml, len(sp)) + 3, v.ident, val, spec_parse.rust_value(prog, v), len(sp)))
+    return '''
+#[cfg(kani)]
+mod vx_proofs {
+    use super::*;
+    type En = %s%s;
+%s
+}
+''' % (E, inst, '\n'.join(out))
